@@ -601,6 +601,10 @@ class LearnerND(BaseLearner):
             vertices = self.tri.get_vertices(simplex)
             self._subtriangulations[simplex] = Triangulation(vertices)
 
+        if point in self._subtriangulations[simplex].vertices:
+            # already registered here (e.g. by the lazily created triangulation)
+            return None, None
+
         self._pending_to_simplex[point] = simplex
         return self._subtriangulations[simplex].add_point(point)
 
@@ -768,6 +772,15 @@ class LearnerND(BaseLearner):
 
         pending_points_unbound = [
             p for p in pending_points_unbound if p not in self.data
+        ]
+        # A pending point that lies on a face shared between a new simplex and
+        # a surviving one is only known to the surviving simplex, so also try
+        # the other pending points (in a unit-independent order); otherwise the
+        # new simplex is not subdivided by it and the same point can be
+        # suggested a second time.
+        seen = set(pending_points_unbound)
+        pending_points_unbound += [
+            p for p in sorted(self.pending_points) if p not in seen
         ]
         for simplex in to_add:
             loss = self._compute_loss(simplex)
